@@ -2,7 +2,7 @@
 # developer helper: run one correspondence and show mismatches   usage: tools/corr.sh Cxx [seed] [tier]
 P=$1; S=${2:-1}; T=${3:-quick}
 cd /verif
-./harness/target/release/pmh_harness corr $P --seed $S --tier $T --out work/$P >/dev/null 2>&1 || echo "harness rc=$?"
+(cd harness && cargo build --release --offline 2>&1 | grep -E "^error" -A8); ./harness/target/release/pmh_harness corr $P --seed $S --tier $T --out work/$P >/dev/null 2>&1 || echo "harness rc=$?"
 ./lean/.lake/build/bin/pmhdriver < work/$P/ops.txt > work/$P/model.txt
 python3 - "$P" <<'PY'
 import json,sys
